@@ -14,8 +14,8 @@ CLAIM = {
             "the assembler's `BTQ $bit` by tools/tx -> Gen/EncFlags.v), the state-stack bound. Theorems: equal parameters => equal Marshal "
             "result for all types, values, option words (C12_exec_agree); the bit columns agree and are the documented bits; integer "
             "primitives agree on all 2^64 values (native fastint.h model = strconv, via C19's u64toa_exact); floats agree except +-0. "
-            "-0.0 (interpreter printed 0) was refuted, repaired by fix b09723f and is now the theorem C12_f64_negzero_agree. Refuted with a witness replayed on the real code: the state-stack bound (C12_stack_bound_refuted); "
-            "the weaker C12_exec_agree_partial (JIT with the interpreter's stack bound = interpreter) is proved. Tie: identical "
+            "-0.0 (interpreter printed 0) was refuted, repaired by fix b09723f and is now the theorem C12_f64_negzero_agree. The state-stack bound (JIT 4095 vs interpreter 4096 frames) was refuted, repaired by fix a4d60f7 and is now C12_stack_bound_agree (both bounds generated from the sources). "
+            "C12_exec_agree_partial: interpreter = JIT up to the digit oracle of zeros. Tie: identical "
             "(type, value, option word) cases in a JIT process and a SONIC_ENCODER_USE_VM process, both against the model and against each other.",
     "note": "Trusted: Coq kernel, extraction, translator (flag-bit columns, stack bounds), Go harness. The generated x86 code itself is "
             "reached only by running it; float digits are strconv's (C19).",
@@ -108,9 +108,7 @@ def run(ctx):
             same = rv is not None and ((rj[0] != "ok" and rv[0] != "ok") or L.same_result(rj, rv, sortk))
             if not same:
                 st["differ"] += 1
-                kf = None
-                if ej and ev and ej[0] != ev[0] and "deep" in feats:
-                    kf = "KF-C12-stack-off-by-one"      # the model with 4096 frames succeeds, with 4095 fails
+                kf = None      # no open finding: -0.0 (b09723f) and the stack bound (a4d60f7) were repaired
                 explained = model and ej is not None and ev is not None and L.same_result(ej[:-1], rj, sortk, mm) and L.same_result(ev[:-1], rv, sortk, mm)
                 if kf and kf in known and explained:
                     st["known"] += 1
